@@ -109,7 +109,9 @@ def run_case(case):
     from rexmon import specs as S
 
     rnd = random.Random(case["spec_seed"])
-    spec = S.rand_live(case["spec_seed"], n_min=2, n_max=5)
+    # communication jitter up to several sender periods in half of the graphs: the FIFO clamp is then active and the order in which
+    # predicted timestamps and real messages pass through a connection matters
+    spec = S.rand_live(case["spec_seed"], n_min=2, n_max=5, comm_scale=rnd.choice([0.02, 0.08, 0.15]))
     dg = S.digest(spec)
     n_steps = case.get("steps", 14)
     rtfs = [0, 0, 0, 5, 20, 50]
@@ -119,6 +121,7 @@ def run_case(case):
         dict(name="baseline", api="run"),
         dict(name="pauses", api="run", p_sleep=0.3),
         dict(name="starved", api="run", p_sleep=0.3, slow=rnd.choice(owners)),
+        dict(name="starved-connection", api="run", p_sleep=0.2, slow=rnd.choice([o for o in owners if "/" in o] or owners)),
         dict(name="step-api", api="step", p_sleep=0.2),
         dict(name="start-pauses", api=rnd.choice(["run", "step"]), p_sleep=0.1, user_sleep=(0.7, 0.03)),
         dict(name="rtf", api="run", rtf=rnd.choice([5, 20, 50]), p_sleep=0.1),
